@@ -452,7 +452,7 @@ fn bases() -> Vec<(bool, &'static str, TokenSpec)> {
 }
 
 /// the offsets of the design: now + {..}; -58 and +58 lie inside the leeway band
-const TIME_OFFSETS: [i64; 9] = [-3600, -120, -62, -58, -1, 58, 62, 120, 3600];
+const TIME_OFFSETS: [i64; 10] = [-3600, -120, -62, -58, -1, 0, 58, 62, 120, 3600];
 
 fn retype_values() -> Vec<Value> {
     vec![
@@ -829,7 +829,14 @@ fn call_router(env: &Env, auth: Option<&str>) -> Result<Option<RouterOutcome>, F
     env.reg.calls.lock().unwrap().clear();
     let t_before = SystemTime::now();
     let resp = no_panic("router", || rt().block_on(env.router.clone().oneshot(req)))
-        .map_err(|f| Fail::new("handler-panics-on-request", f.msg))?;
+        .map_err(|f| {
+            // the one known panic keeps the plain signature; any other panic gets its own
+            if f.msg.contains("overflow when adding duration to instant") {
+                Fail::new("request-handling-panics", f.msg)
+            } else {
+                Fail::new(format!("request-handling-panics:{}", f.sig), f.msg)
+            }
+        })?;
     let status = match resp {
         Ok(r) => r.status(),
         Err(e) => match e {},
@@ -848,6 +855,16 @@ fn exp_of(token: &str) -> Option<u64> {
 }
 
 fn check(case: &Case, obs: &mut Obs) -> CheckResult {
+    let r = check_inner(case, obs);
+    if let Err(f) = &r
+        && std::env::var("C10_DEBUG_FAILS").is_ok()
+    {
+        eprintln!("FAIL {} | {} {:?} | {}", f.sig, case.base_name, case.muts, f.msg.chars().take(200).collect::<String>());
+    }
+    r
+}
+
+fn check_inner(case: &Case, obs: &mut Obs) -> CheckResult {
     with_env(case.jwks, |env| {
         let Some(env) = env else {
             obs.label("skipped:jwks-store-unavailable");
@@ -1166,10 +1183,10 @@ fn run_systematic(ctx: &Ctx) {
     ctx.run_enum("single-mutations", cases.len() as u64, true, |i| Some(cases[i as usize].clone()), check);
 }
 fn run_random(ctx: &Ctx) {
-    ctx.run_prop("random-mutations", ctx.tier.pick(40_000, 1_500_000), random_case, check);
+    ctx.run_prop("random-mutations", ctx.tier.pick(100_000, 3_000_000), random_case, check);
 }
 fn run_strings(ctx: &Ctx) {
-    ctx.run_prop("random-strings", ctx.tier.pick(8_000, 300_000), random_string_case, check);
+    ctx.run_prop("random-strings", ctx.tier.pick(20_000, 500_000), random_string_case, check);
 }
 fn run_headers(ctx: &Ctx) {
     ctx.run_list("authorization-header", &header_cases(), |c, o| check_header(c, o));
@@ -1212,7 +1229,7 @@ fn main() {
     ];
     vcore::main(
         "C10",
-        "case = (verifier configuration: static key | static key + JWKS store fed from an in-process loopback endpoint; a valid v0 or v1 token built and Ed25519-signed by the harness; a list of mutations) or a raw string. single-mutations: EXHAUSTIVE list around 7 valid base tokens: header alg (11 names, missing, null, number, array, alg=none with empty signature, HS256 keyed with the public key), typ, kid x signing-key matrix (5 kids x 4 keys), unknown header parameters; every claim removed and retyped to 10 JSON values; claims of the other version added; exp/nbf/iat at now+{-3600,-120,-62,-58,-1,+58,+62,+120,+3600} and at 0,1,2^53+1,2^63-1,2^63,2^64-1, float; exp+nbf together; aud in {snap,other,[snap,x],[x,snap],[x],[snap],[],SNAP,'snap ','',[x,1],missing}; ver in {0,1,2,'1',1.0,true,null,-1,2^64-1,[1],missing}; 16 pssid spellings; jti/private claims/pretty JSON/non-object payloads; 8 base64 variants x 3 segments; 9 segment-shape changes; all splices of segments with 3-5 other valid tokens; every single bit of header, payload and all 512 signature bits flipped (4 bases). random-mutations: random valid token (version, kid/key, jti, pssid, times, optional claims) with 0-3 random mutations of the same families; random-strings: printable/unicode strings, random base64 triples, valid header + random bytes + random 64-byte signature. Every token is shown to SnapTokenVerifier::verify AND posted as 'Authorization: Bearer' to RegisterSnapTunIdentity on the router of build_router (oneshot). Oracle: reference predicate over the token STRING (3 strict base64url-nopad segments; header alg == EdDSA; key = static key, or the JWKS key of the kid when a store is configured and a kid is present; Ed25519 verification by ed25519-dalek over the ASCII 'h.p'; claims of the version: v0 = pssid(UUID) exp(u64) jti(string), v1 = ver==1 iss aud exp nbf iat jti pssid(base64url of 0x00||16 bytes), ver absent = v0, anything else refused; aud absent or names 'snap'; exp >= now-60; nbf <= now+60 when present): verify Ok <=> reference accepts; router 401 <=> reference refuses; an identity is registered only for a token the reference accepts, at most once, under the token's jti, with lifetime <= exp - (wall clock before the request); a valid token with exp in the future is served (200 + registration). Verdicts left open (never flagged): other base64 spellings of an acceptable token, non-string optional header parameters, ill-typed claims outside the version's documented structure, v1 aud as array containing snap, non-hyphenated UUID forms, times within 2 s of now±60. Non-trivial = exactly one mutation and the token string differs from the valid base token.",
+        "case = (verifier configuration: static key | static key + JWKS store fed from an in-process loopback endpoint; a valid v0 or v1 token built and Ed25519-signed by the harness; a list of mutations) or a raw string. single-mutations: EXHAUSTIVE list around 7 valid base tokens: header alg (11 names, missing, null, number, array, alg=none with empty signature, HS256 keyed with the public key), typ, kid x signing-key matrix (5 kids x 4 keys), unknown header parameters; every claim removed and retyped to 10 JSON values; claims of the other version added; exp/nbf/iat at now+{-3600,-120,-62,-58,-1,0,+58,+62,+120,+3600} and at 0,1,2^53+1,2^63-1,2^63,2^64-1, float; exp+nbf together; aud in {snap,other,[snap,x],[x,snap],[x],[snap],[],SNAP,'snap ','',[x,1],missing}; ver in {0,1,2,'1',1.0,true,null,-1,2^64-1,[1],missing}; 16 pssid spellings; jti/private claims/pretty JSON/non-object payloads; 8 base64 variants x 3 segments; 9 segment-shape changes; all splices of segments with 3-5 other valid tokens; every single bit of header, payload and all 512 signature bits flipped (4 bases). random-mutations: random valid token (version, kid/key, jti, pssid, times, optional claims) with 0-3 random mutations of the same families; random-strings: printable/unicode strings, random base64 triples, valid header + random bytes + random 64-byte signature. Every token is shown to SnapTokenVerifier::verify AND posted as 'Authorization: Bearer' to RegisterSnapTunIdentity on the router of build_router (oneshot). Oracle: reference predicate over the token STRING (3 strict base64url-nopad segments; header alg == EdDSA; key = static key, or the JWKS key of the kid when a store is configured and a kid is present; Ed25519 verification by ed25519-dalek over the ASCII 'h.p'; claims of the version: v0 = pssid(UUID) exp(u64) jti(string), v1 = ver==1 iss aud exp nbf iat jti pssid(base64url of 0x00||16 bytes), ver absent = v0, anything else refused; aud absent or names 'snap'; exp >= now-60; nbf <= now+60 when present): verify Ok <=> reference accepts; router 401 <=> reference refuses; an identity is registered only for a token the reference accepts, at most once, under the token's jti, with lifetime <= exp - (wall clock before the request); a valid token with exp in the future is served (200 + registration). Verdicts left open (never flagged): other base64 spellings of an acceptable token, non-string optional header parameters, ill-typed claims outside the version's documented structure, v1 aud as array containing snap, non-hyphenated UUID forms, times within 2 s of now±60. Non-trivial = exactly one mutation and the token string differs from the valid base token.",
         &[
             "the verifier and the registration handler read the wall clock themselves (jsonwebtoken::get_current_timestamp, SystemTime::now): the harness reads it before building and after judging each token and only generates times at least 2 s away from now-60 / now+60; a token whose verdict would differ between the two readings is not judged",
             "leeway = 60 s: build_validation() uses Validation::new and does not change `leeway` (documented default 60)",
